@@ -73,14 +73,33 @@ type FGrammar struct {
 }
 
 type FrontOpts struct {
-	Bootstrap bool // restrict to the subset understood by the bootstrap front-end
-	EscDash   bool // allow an escaped '-' (\x2d) between two class characters
+	Bootstrap  bool // restrict to the subset understood by the bootstrap front-end
+	EscDash    bool // allow an escaped '-' (\x2d) between two class characters
+	Compilable bool // well-typed code blocks, labels distinct inside a rule, defined references (C04)
+	DigitNames bool // with Compilable: rule names may end in a digit
 }
 
 type fgen struct {
 	r      *rand.Rand
 	o      FrontOpts
 	nrules int
+	names  []string // rule names (Compilable)
+	nlab   int      // labels used in the current rule (Compilable)
+}
+
+func (g *fgen) label() string {
+	if g.o.Compilable {
+		g.nlab++
+		return fmt.Sprintf("l%d", g.nlab)
+	}
+	return fLabelNames[g.r.Intn(len(fLabelNames))]
+}
+
+func (g *fgen) refName() string {
+	if g.o.Compilable {
+		return g.names[g.r.Intn(len(g.names))]
+	}
+	return fmt.Sprintf("Rule%d", g.r.Intn(g.nrules))
 }
 
 func (g *fgen) pct(n int) bool { return g.r.Intn(100) < n }
@@ -107,6 +126,20 @@ var fCodePoolBoot = []string{
 	"{}",
 	"{ if true { return 1, nil }; return 2, nil }",
 	"{ return func() any { return struct{}{} }(), nil }",
+}
+
+func (g *fgen) codeKind(k FKind) string {
+	if !g.o.Compilable {
+		return g.code()
+	}
+	switch k {
+	case FAction:
+		return []string{"{ return nil, nil }", "{\n\treturn string(c.text), nil\n}", "{ if len(c.text) > 1 { return c.pos.offset, nil }; return []any{}, nil }"}[g.r.Intn(3)]
+	case FStateCode:
+		return []string{"{ return nil }", "{ c.state[\"k\"] = 1; return nil }"}[g.r.Intn(2)]
+	default:
+		return []string{"{ return true, nil }", "{ return len(c.text) == 0, nil }"}[g.r.Intn(2)]
+	}
 }
 
 func (g *fgen) code() string {
@@ -171,22 +204,22 @@ func (g *fgen) genPrimary(depth int) *FNode {
 	case x < 12:
 		return &FNode{K: FAny}
 	case x < 15:
-		return &FNode{K: FRef, Ref: fmt.Sprintf("Rule%d", g.r.Intn(g.nrules))}
+		return &FNode{K: FRef, Ref: g.refName()}
 	case x < 16:
 		if g.o.Bootstrap {
 			return &FNode{K: FAny}
 		}
-		return &FNode{K: FAndCode, Code: g.code()}
+		return &FNode{K: FAndCode, Code: g.codeKind(FAndCode)}
 	case x < 17:
 		if g.o.Bootstrap {
 			return &FNode{K: FAny}
 		}
-		return &FNode{K: FNotCode, Code: g.code()}
+		return &FNode{K: FNotCode, Code: g.codeKind(FNotCode)}
 	case x < 18:
 		if g.o.Bootstrap {
 			return &FNode{K: FAny}
 		}
-		return &FNode{K: FStateCode, Code: g.code()}
+		return &FNode{K: FStateCode, Code: g.codeKind(FStateCode)}
 	default:
 		if depth < 4 {
 			return g.genExpr(depth + 1) // printed in parentheses
@@ -225,7 +258,7 @@ func (g *fgen) genLabeled(depth int) *FNode {
 	}
 	p := g.genPrefixed(depth)
 	if g.pct(25) {
-		return &FNode{K: FLabel, Label: fLabelNames[g.r.Intn(len(fLabelNames))], Kids: []*FNode{p}}
+		return &FNode{K: FLabel, Label: g.label(), Kids: []*FNode{p}}
 	}
 	return p
 }
@@ -248,7 +281,7 @@ func (g *fgen) genSeq(depth int) *FNode {
 func (g *fgen) genAction(depth int) *FNode {
 	s := g.genSeq(depth)
 	if g.pct(25) {
-		return &FNode{K: FAction, Code: g.code(), Kids: []*FNode{s}}
+		return &FNode{K: FAction, Code: g.codeKind(FAction), Kids: []*FNode{s}}
 	}
 	return s
 }
@@ -288,6 +321,24 @@ func GenFront(seed int64, idx int, o FrontOpts) *FGrammar {
 	g := &fgen{r: rand.New(rand.NewSource(seed*7919 + int64(idx))), o: o}
 	g.nrules = 1 + g.r.Intn(4)
 	gr := &FGrammar{}
+	if o.Compilable {
+		pool := []string{"Start", "Expr", "Term", "Factor", "Item"}
+		if o.DigitNames {
+			pool = []string{"A", "A1", "B", "B2", "A11"}
+		}
+		g.r.Shuffle(len(pool), func(i, j int) { pool[i], pool[j] = pool[j], pool[i] })
+		g.names = pool[:g.nrules]
+		gr.Init = "{\npackage main\n}"
+		for i := 0; i < g.nrules; i++ {
+			g.nlab = 0
+			r := &FRule{Name: g.names[i], Expr: g.genExpr(0)}
+			if g.pct(20) {
+				r.Display = `"a rule"`
+			}
+			gr.Rules = append(gr.Rules, r)
+		}
+		return gr
+	}
 	if g.pct(60) {
 		gr.Init = "{\npackage main\n\nvar m = map[string]string{\"{\": \"}\"}\n}"
 		if o.Bootstrap {
@@ -840,6 +891,58 @@ func ClassLines(g *FGrammar) []string {
 	}
 	for _, r := range g.Rules {
 		walk(r.Expr)
+	}
+	return out
+}
+
+// ExpectedMethods lists, in the order the builder emits them, the parameter lists of the code-block
+// methods: a block receives the labels of its own sequence that have been bound when it is reached
+// (an action: all labels of its sequence); nested expressions (choice alternatives, labelled
+// sub-expressions, predicates, repetitions, recovery pairs) open a scope of their own.
+func ExpectedMethods(g *FGrammar) [][]string {
+	var out [][]string
+	var stack [][]string
+	push := func() { stack = append(stack, nil) }
+	pop := func() { stack = stack[:len(stack)-1] }
+	cur := func() []string { return append([]string{}, stack[len(stack)-1]...) }
+	var walk func(n *FNode)
+	walk = func(n *FNode) {
+		switch n.K {
+		case FAction:
+			walk(n.Kids[0])
+			out = append(out, cur())
+		case FAndCode, FNotCode, FStateCode:
+			out = append(out, cur())
+		case FLabel:
+			stack[len(stack)-1] = append(stack[len(stack)-1], n.Label)
+			push()
+			walk(n.Kids[0])
+			pop()
+		case FAnd, FNot, FOpt, FStar, FPlus:
+			push()
+			walk(n.Kids[0])
+			pop()
+		case FChoice:
+			for _, k := range n.Kids {
+				push()
+				walk(k)
+				pop()
+			}
+		case FRecovery:
+			push()
+			walk(n.Kids[0])
+			walk(n.Kids[1])
+			pop()
+		case FSeq:
+			for _, k := range n.Kids {
+				walk(k)
+			}
+		}
+	}
+	for _, r := range g.Rules {
+		push()
+		walk(r.Expr)
+		pop()
 	}
 	return out
 }
